@@ -357,7 +357,7 @@ critical section is split in two (check under one lock acquisition, act under an
 theorem – that is an atomicity change no lock-set rule can see. -/
 def C20.reviewedMultiSection : List (String × String × String × Nat) :=
   [ ("port.InPort", "Open", "mu", 3),          -- RLock fast path; Lock with re-check; exit-hook closure
-    ("port.OutPort", "Open", "mu", 3),         -- same shape
+    ("port.OutPort", "Open", "mu", 4),         -- same shape + the listener goroutine's closure compares and deletes the `listening` entry under one acquisition (fix e4ca10a)
     ("process.Local", "LoadOrStore", "mu", 3), -- RLock fast path; Lock with re-check; Lock to publish (modelled step by step in C05)
     ("process.Process", "Fork", "mu", 2),      -- children++ ; the child's wait-done hook closure (children--)
     ("runtime.Agent", "accept", "mu", 3),
